@@ -318,6 +318,22 @@ prop("C09",
               "argument lists beyond their separators, arrays beyond their separators, RangeKind printed to the right of ':' (B1:(B2:B3), listed), the xlsx-specific prefixes")
 
 
+prop("C25",
+     units=["xlsxpanic", "finite"],
+     scans=["import-panicking-ops"],
+     level="proof",
+     claim="slice (the importer's OWN code, xlsx/src/import; the zip and XML parsers are external crates): the two byte slices that drop the alpha byte of a colour value "
+           "(theme::format_hex whole, the rgb branch of util::get_color_indexed) are at a character boundary for ANY attribute text; the number reader parse_cell_number never "
+           "yields a non-finite value (unit finite); and a closed-world scan finds every operator of xlsx/src/import that can panic (unwrap, expect, panic-family macros, "
+           "indexing / slicing, replace_range, split_at, remove, drain) and requires each to be under one of those contracts, dominated by a length test of the indexed vector, "
+           "or on a reviewed list with its reason — a new one makes the run UNDECIDED",
+     assumptions=["units/std_text.rs: `offset i is a char boundary` is uninterpreted and established only by documented std facts (here: in an ASCII text every offset up to the "
+                  "length is a boundary; str::len of an ASCII text is its number of characters)",
+                  "the reviewed list of the scan (10 sites, each with its reason in vf/scans.py) and the length-guard pattern are reviews, not proofs"],
+     residual="roxmltree / zip / bitcode (external), arithmetic overflow in debug builds, allocation failure, stack depth on deeply nested XML, everything the importer hands to "
+              "ironcalc_base (formula parsing of imported text is C11's subject), every importer function not listed")
+
+
 def evidence(pid, tier, seed, results, scan_results, kani_results, violations, known_hits, undecided, wall):
     P = PROPS[pid]
     obligations = 0
